@@ -157,11 +157,26 @@ impl FileDesc {
         {
             // Calculate the source block length of Raptor / RaptorQ
 
-            let (_, _, _, nb_blocks) = partition::block_partitioning(
+            let (a_large, _, _, nb_blocks) = partition::block_partitioning(
                 oti.maximum_source_block_length as u64,
                 object.transfer_length,
                 oti.encoding_symbol_length as u64,
             );
+
+            // A source block cannot have more source symbols than the code supports:
+            // K_max = 8192 (RFC 5053 section 5.1.2), K'_max = 56403 (RFC 6330 section 5.1.2).
+            // The encoder (and the decoder of the receiver) panics on a larger block
+            let max_block_symbols: u64 = if oti.fec_encoding_id == oti::FECEncodingID::RaptorQ {
+                56403
+            } else {
+                8192
+            };
+            if a_large > max_block_symbols {
+                return Err(FluteError::new(format!(
+                    "Source blocks of {} symbols exceed the {} source symbols per block of the FEC scheme, your object is incompatible with the FEC parameters of your OTI",
+                    a_large, max_block_symbols
+                )));
+            }
 
             if oti.fec_encoding_id == oti::FECEncodingID::RaptorQ {
                 if oti.scheme_specific.is_none() {
